@@ -58,7 +58,7 @@ Print Assumptions C07_auto_history_InSync_partial.
    changeElement calls must store their value, i.e. not fall under the epsilon / underflow rule) *)
 Theorem C07_auto_rational_holds_entered_numbers_partial :
   forall rnd, oracle_ok rnd -> forall ops s q, mode s = Auto -> InSync s -> ql s = Some q -> hist_ok rnd s ops -> hist_kept rnd s ops ->
-    ql (run rnd s ops) = Some (spec_run q ops).
+    ql (run rnd s ops) = Some (spec_run (pmax s) q ops).
 Proof. exact exact_history. Qed.
 Print Assumptions C07_auto_rational_holds_entered_numbers_partial.
 
@@ -167,11 +167,12 @@ exists h, valid_run rnd_impl init h = true /\ mode (run rnd_impl init h) = Auto 
 Proof. exact (ex_intro _ hist_underflow underflow_refutes). Qed.
 Print Assumptions C07_auto_dimensions_agree_refuted.
 
-(* OBJSENSE_MINIMIZE, clearLPReal, addColRational(const mpq_t pointers, objective 5): real objective -5 *)
-Theorem C07_auto_gmp_addcol_objective_refuted :
-exists h, valid_run rnd_impl init h = true /\ ~ InSync (run rnd_impl init h).
-Proof. exact (ex_intro _ hist_gmp_sense gmp_sense_refutes). Qed.
-Print Assumptions C07_auto_gmp_addcol_objective_refuted.
+(* ---------------------------------------------------------------------------------------------------------
+   sense: in every reachable state (SenseOK holds for a new object) both LPs have the sense of the OBJSENSE parameter;
+   in particular the sense condition in "benign" for the GMP addCol entry points always holds *)
+Theorem C07_sense_follows_parameter : forall rnd s o, SenseOK s -> SenseOK (step rnd s o).
+Proof. exact step_SenseOK. Qed.
+Print Assumptions C07_sense_follows_parameter.
 
 (* ---------------------------------------------------------------------------------------------------------
    the assumption about the conversions can be met: truncation towards zero, saturating at the largest double *)
@@ -181,6 +182,9 @@ Print Assumptions C07_oracle_assumption_satisfiable.
 
 (* ---------------------------------------------------------------------------------------------------------
    Examples: the hypotheses are satisfiable by non-trivial states and histories, and what the theorems say there. *)
+Example ex_init_sense : SenseOK init.
+Proof. exact SenseOK_init. Qed.
+
 Example ex_init_inv : Inv init.
 Proof.
   split; [exact RealOK_empty|]. split; [apply WF2_empty|]. split; [discriminate|]. intros H. now elim H.
